@@ -144,6 +144,28 @@ TotalRecs(A, R, a) ==
                    \A x \in rec : x[1] = c.key => \A i \in DOMAIN x[2] : Sat(c.cond, x[2][i])
   IN IF Fits(R, A, a) /\ keys = AllKeys(R) /\ condok THEN {rec} ELSE {}
 
+\* ------------------------------------------------------------------ focused selectors forced to total mode (C07)
+\* One record per binding of the focus variable and per embedding of the focus path that starts at the ending
+\* outermost activation: the single focus value plus the COMPLETE value lists (as of the end of the outermost
+\* call) of every other capture of the matched activations and of the sibling calls under them.
+RECURSIVE FocusPathNodes(_)
+FocusPathNodes(C) == IF FocusKid(C) = 0 THEN <<C>> ELSE <<C>> \o FocusPathNodes(C.kids[FocusKid(C)])
+AllOwnNF(A, C, a) ==
+  UNION { { <<C.caps[i].key, A[a].binds[j].t, A[a].binds[j].val>> :
+              j \in {y \in DOMAIN A[a].binds : CapMatches(C.caps[i], A[a].binds[y])} } :
+          i \in {x \in DOMAIN C.caps : C.caps[x].tag # 1} }
+ForcedRec(A, R, chain, val) ==
+  LET path == FocusPathNodes(R)
+      trip == UNION { AllOwnNF(A, path[j], chain[j])
+                      \cup UNION { AllSub(A, path[j].kids[k], chain[j]) : k \in (DOMAIN path[j].kids) \ {FocusKid(path[j])} }
+                      : j \in DOMAIN path }
+      keys == {x[1] : x \in trip}
+      vals(k) == LET s == SetToSortSeq({<<x[2], x[3]>> : x \in {y \in trip : y[1] = k}}, LAMBDA p, q : p[1] < q[1])
+                 IN [i \in DOMAIN s |-> s[i][2]]
+  IN {<<k, vals(k)>> : k \in keys} \cup {<<FocusKey(R), <<val>>>>}
+ForcedOK(R, rec) == {x[1] : x \in rec} = AllKeys(R)
+                    /\ \A c \in AllCaps(R) : c.cond.k # "none" => \A x \in rec : x[1] = c.key => \A i \in DOMAIN x[2] : Sat(c.cond, x[2][i])
+
 \* feature for known-finding matching: some kid level of R is matched at two nesting depths under a
 RECURSIVE NestedKidMatch(_, _, _)
 NestedKidMatch(A, K, a) ==
